@@ -9,7 +9,7 @@ use std::rc::Rc;
 
 pub struct C10;
 
-fn gen_rops(rng: &mut Rng, model: &Model, n: usize, chunk: usize, block: usize) -> Vec<ROp> {
+fn gen_rops(rng: &mut Rng, model: &Model, n: usize, chunk: usize, block: usize, edges: &[(String, usize)]) -> Vec<ROp> {
     let mut ops = Vec::new();
     let names: Vec<&String> = model.order.iter().collect();
     if names.is_empty() {
@@ -21,6 +21,21 @@ fn gen_rops(rng: &mut Rng, model: &Model, n: usize, chunk: usize, block: usize) 
             0 => ops.push(ROp::List),
             1 | 2 => ops.push(ROp::Hash { name: (*rng.pick(&names)).clone() }),
             3 => ops.push(ROp::Open { name: "does-not-exist".into() }),
+            4 | 5 | 6 if !edges.is_empty() => {
+                // stop EXACTLY where the file's bytes cross a chunk or block edge of the stream below (or one byte
+                // around it), abandon the file there and go on with whatever comes next
+                let (name, p) = rng.pick(edges).clone();
+                let p = match rng.below(6) {
+                    0 => p.saturating_sub(1),
+                    1 => p + 1,
+                    _ => p,
+                };
+                ops.push(ROp::Open { name });
+                ops.push(ROp::ReadExact { total: p, n: (*rng.pick(&bufs)).max(1) });
+                if rng.chance(1, 4) {
+                    ops.push(ROp::Read { n: *rng.pick(&bufs) });
+                }
+            }
             _ => {
                 // open a file, read some of it (maybe abandon midway), maybe read to the end
                 let name = (*rng.pick(&names)).clone();
@@ -50,7 +65,7 @@ impl Prop for C10 {
         "exploration"
     }
     fn rule(&self) -> String {
-        "run = seeded valid writer history with interleaved files spanning several chunks and blocks (all layer sets), opened once with the normal reader over the simulated source; then a seeded history of 20..200 reader operations on that ONE reader: list, get_hash, open a file (abandoning whichever was open), reads with buffers from {0,1,2,3,5,7,13,31,61,127,CHUNK-1,CHUNK,CHUNK+1,BLOCK-1,BLOCK,BLOCK+1,1 MiB}, read-to-end, reads after the end, opening missing names, the same file repeatedly. Model: a per-file cursor over the abstract model's bytes (= what reading that file alone right after opening gives, which C01 establishes): every read returns exactly the bytes at the cursor (fewer than asked is allowed, 0 only for an empty buffer or at the end), sizes and hashes equal the model's at every point of the history. distinct_nontrivial = distinct (variant, layers, #files, interleaved, abandon point class vs chunk/block edge, buffer class) signatures.".into()
+        "run = seeded valid writer history with interleaved files spanning several chunks and blocks (all layer sets), opened once with the normal reader over the simulated source; then a seeded history of 20..200 reader operations on that ONE reader: list, get_hash, open a file (abandoning whichever was open), reads with buffers from {0,1,2,3,5,7,13,31,61,127,CHUNK-1,CHUNK,CHUNK+1,BLOCK-1,BLOCK,BLOCK+1,1 MiB}, read-to-end, reads after the end, opening missing names, the same file repeatedly; a quarter of the file visits STOP EXACTLY (or one byte around) where the file's bytes cross a block or chunk edge of the file-layer stream (positions solved from the stream-length model), abandon the file there and continue with the next operation. Model: a per-file cursor over the abstract model's bytes (= what reading that file alone right after opening gives, which C01 establishes): every read returns exactly the bytes at the cursor (fewer than asked is allowed, 0 only for an empty buffer or at the end), sizes and hashes equal the model's at every point of the history. distinct_nontrivial = distinct (variant, layers, #files, interleaved, abandon point class vs chunk/block edge, buffer class) signatures.".into()
     }
     fn assumptions(&self) -> Vec<String> {
         vec!["the source splits nothing (split sources are C13)".into()]
@@ -77,7 +92,19 @@ impl Prop for C10 {
         let mut case = Case::new("C10", cfg, ops);
         let model = model_of(&case.ops);
         let n = if big { rng.range(10, 40) } else { rng.range(20, 200) } as usize;
-        case.rops = gen_rops(&mut rng, &model, n, c.chunk, c.block);
+        // file positions at which the file-layer stream position is a multiple of the block size (what the
+        // compression layer cuts) or of the chunk size (what the encryption layer cuts when it is alone)
+        let mut edges: Vec<(String, usize)> = Vec::new();
+        for (name, foff, soff, len) in content_extents(&case.ops) {
+            for m in [vc.block as usize, vc.chunk as usize] {
+                let mut e = soff.div_ceil(m) * m;
+                while e <= soff + len && edges.len() < 64 {
+                    edges.push((name.clone(), foff + (e - soff)));
+                    e += m;
+                }
+            }
+        }
+        case.rops = gen_rops(&mut rng, &model, n, c.chunk, c.block, &edges);
         case
     }
     fn exec(&self, case: &Case, ctx: &mut Ctx) -> Vec<Violation> {
@@ -151,6 +178,19 @@ impl Prop for C10 {
                         v.push(Violation::new("history-wrong-read", "no-file", format!("{what}: bytes without an open file")));
                     }
                 }
+                (ROp::ReadExact { total, .. }, RRes::Bytes(b)) => {
+                    if let Some((name, pos)) = cur.as_mut() {
+                        let orig = &model.files[*name];
+                        let from = (*pos).min(orig.len());
+                        let want = &orig[from..(from + *total).min(orig.len())];
+                        if want != &b[..] {
+                            v.push(Violation::new("history-wrong-read", "read-exact", format!("{what}: file {:?} from {}: {} bytes returned, a cursor over the file read alone gives {}", name.chars().take(12).collect::<String>(), pos, b.len(), want.len())));
+                            break;
+                        }
+                        ctx.sig(format!("stop|{}|{}|b{}|c{}", case.cfg.variant, case.cfg.layer_name(), align_class(from + b.len(), vc.block as usize), align_class(from + b.len(), chunk)));
+                        *pos = from + b.len();
+                    }
+                }
                 (ROp::ReadAll { .. }, RRes::Bytes(b)) => {
                     if let Some((name, pos)) = cur.as_mut() {
                         let orig = &model.files[*name];
@@ -161,7 +201,7 @@ impl Prop for C10 {
                         *pos = orig.len();
                     }
                 }
-                (ROp::Read { .. } | ROp::ReadAll { .. }, RRes::NoFile) if cur.is_none() => {}
+                (ROp::Read { .. } | ROp::ReadAll { .. } | ROp::ReadExact { .. }, RRes::NoFile) if cur.is_none() => {}
                 (_, r) => {
                     v.push(Violation::new("history-op-error", "op", format!("{what}: {:?}", format!("{r:?}").chars().take(160).collect::<String>())));
                     break;
